@@ -65,6 +65,10 @@ fn values() -> Vec<StunAttribute> {
     let mut ua = UnknownAttributes::default();
     v.push(ua.clone().into());
     for t in [0x0001u16, 0x8022, 0xffff] { ua.add(t); v.push(ua.clone().into()); }
+    // (the list keeps the order in which the types were added: not sorted)
+    let mut ub = UnknownAttributes::default();
+    for t in [0x8022u16, 0x0019, 0x0002, 0x7fff, 0x0003] { ub.add(t); }
+    v.push(ub.into());
     for id in [AlgorithmId::MD5, AlgorithmId::SHA256, AlgorithmId::Unassigned(77)] {
         for plen in 0usize..=5 {
             let params = vec![0xEEu8; plen];
